@@ -160,6 +160,35 @@ def judge(ctx, sc, seed, replay):
         problems.append(("undecodable-transmission", repr(exc)))
     h.close()
     ctx.count("scenarios")
+    # the property promises the first round "inside the initial-delay window": anchor the round schedule on the instant the
+    # first FindService actually left (finds are not collected, so the wire instant is the decision instant)
+    if sent:
+        lo, hi = sc["s0"] + sc["window"][0], sc["s0"] + sc["window"][1]
+        r0 = sent[0]["t"]
+        if not (lo - 4 * RES <= r0 <= hi + 4 * RES):
+            ctx.violation("first-find-round-outside-the-initial-delay-window",
+                          dict(first_round=r0, window=(lo, hi), filters=sc["filters"]), replay)
+        elif r0 != sc["rounds"][0]:
+            rounds = [r0]
+            for i in range(sc["reps"]):
+                rounds.append(rounds[-1] + sc["base"] * 2 ** i)
+            sc = dict(sc, rounds=rounds)
+            ctx.count("rounds_anchored_on_observed_first_round")
+    elif sc["window"][0] != sc["window"][1]:
+        # nothing was sent at all and the instant of the first round is only known to lie in the window: that is right iff
+        # at SOME instant of the window every watched filter had a live matching offer (the round then has nothing to ask
+        # and the sequence ends).  The found-set is piecewise constant, so the window's ends, every event / expiry instant
+        # inside it and a point just behind each are enough to test.
+        lo, hi = sc["s0"] + sc["window"][0], sc["s0"] + sc["window"][1]
+        cands = {lo, hi}
+        for e in sc["events"]:
+            for c in (e[0], e[0] + 4 * EPS, (e[0] + e[4]) if e[4] not in (0, FOREVER) else None,
+                      (e[0] + e[4] + 4 * EPS) if e[4] not in (0, FOREVER) else None):
+                if c is not None and lo <= c <= hi:
+                    cands.add(c)
+        ctx.count("silent_first_round_window_searches")
+        if any(not model_rounds(dict(sc, rounds=[c]))[0][0][1] for c in sorted(cands)):
+            return True
     expected, stats = model_rounds(sc)
     ctx.count("offers_expired_between_rounds", stats["expired_between"])
 
